@@ -187,6 +187,11 @@ func (g *GRE) SerializeTo(b gopacket.SerializeBuffer, opts gopacket.SerializeOpt
 		// Instead we zeroize the memory in case it is dirty.
 		buf[offset] = 0
 		buf[offset+1] = 0
+		if !g.ChecksumPresent {
+			// The field is present because of routing but carries no checksum:
+			// keep the stored value, so that a decoded header serializes back unchanged.
+			binary.BigEndian.PutUint16(buf[offset:offset+2], g.Checksum)
+		}
 		binary.BigEndian.PutUint16(buf[offset+2:offset+4], g.Offset)
 		offset += 4
 	}
